@@ -690,7 +690,8 @@ class Polygon(Shape2D):
         )
         # Apply translational shift relative to the center of the
         # polygonal face relative to its centroid.
-        form_factor[~zero_q] = -np.sum(
+        # The edge sum carries the sign of the vertex orientation about the normal.
+        form_factor[~zero_q] = -np.sign(self.signed_area) * np.sum(
             f_ns * 1j * np.exp(-1j * midpoints_dot_qs), axis=0
         )
         form_factor *= density
